@@ -68,6 +68,8 @@ type Case struct {
 	Note     string   `json:"note,omitempty"`
 	// C08: per subscriber 0 never stalled, 1 stalled until the last write is done, 2 stalled for ever
 	Stall     []int `json:"stall"`
+	// C08: the last subscriber starts when everything else is over (Stall 0)
+	Late bool `json:"late,omitempty"`
 	TimeoutMs int   `json:"timeout_ms"`
 	Obs       *Obs  `json:"obs,omitempty"`
 }
